@@ -187,6 +187,7 @@ static void check_support(const WinC2 &c, vf::Obs &o) {
   if (res == 0) {
     Sup x(g, s, e);
     VCHECK(o, support_invariant(x).empty(), "accepted support violates its invariant");
+    VCHECK(o, x.getStartIndex() == s && x.getEndIndex() == e, "accepted support reports the window [" << x.getStartIndex() << "," << x.getEndIndex() << ") instead of the one it was given");
   }
 }
 
@@ -459,7 +460,15 @@ int main(int argc, char **argv) {
   vf::add_sub<SeqC>("grid", 2500, rc::gen::exec([] { SeqC c; c.code = gen_codes(8, false); c.ctor = pick(0, 9); return c; }), check_grid);
   vf::add_sub<WinC2>("support", 1500, rc::gen::exec([] {
     WinC2 c; c.n = pick(2, 7);
-    auto ix = [&]() -> i64 { return chance(85) ? pick(0, c.n + 2) : -pick(1, c.n + 3); };
+    // index classes: small, around SIZE_MAX (negative codes), and values whose LOW bits look like a valid index: 2^32 + k,
+    // 2^33 + k, 2^16 * 2^32 + k, 2^63 - 1 - k (an index type narrower than size_t would reduce them to k)
+    auto ix = [&]() -> i64 {
+      int r = (int)pick(0, 99);
+      if (r < 70) return pick(0, c.n + 2);
+      if (r < 82) return -pick(1, c.n + 3);
+      i64 k = pick(0, c.n + 1);
+      switch ((int)pick(0, 4)) { case 0: return ((i64)1 << 32) + k; case 1: return ((i64)1 << 33) + k; case 2: return ((i64)1 << 48) + k; case 3: return ((i64)1 << 16) + k; default: return (i64)0x7fffffffffffffffLL - k; }
+    };
     c.s = ix(); c.e = ix();
     if (chance(30)) { c.s = pick(0, c.n - 1); c.e = pick(c.s + 1, c.n); }
     return c; }), check_support);
